@@ -3,6 +3,7 @@ import ast
 import json
 import os
 import random
+import re
 import shutil
 import tempfile
 
@@ -45,14 +46,29 @@ POSITIONS = {
     "fstring_concat_second": "v = \"text \" f\"{{E}}\"", "fstring_concat_third": "v = (\"a \"\n{I}     \"b \"\n{I}     f\"{{E}}\")", "fstring_concat_first": "v = f\"{{E}}\" \" tail\"",
     "fstring_concat_raw_first": "v = r\"a\\d \" f\"{{E}} x\"",
     "subscript_tuple": "v = v[0, {E}]", "expr_tuple_stmt": "1, {E}", "subscript_tuple_target": "v[{E}, 0] = 1",
+    # the access written next to the BARE instance: a call that also receives `self` itself as an argument (explicit base-class call, observer registration,
+    # visitor dispatch) or any other expression that mentions the bare name; the mention is another argument, a keyword, the receiver, or nested deeper
+    "base_call_self_arg": "Base.__init__(self, {E})", "base_call_self_kwarg": "Base.configure(self, option={E})", "receiver_of_call_passing_self": "{E}.subscribe(self)",
+    "call_self_then_nested_arg": "register(self, [{E}])", "call_arg_then_self": "v = register({E}, self)", "selfcall_passing_self": "v = self.sink(self, {E})",
+    "return_base_call_self": "return Base.run(self, {E})", "call_self_keyword_only": "register(owner=self, value={E})", "super_two_arg": "super(Base, self).__init__({E})",
+    "call_self_middle": "v = register(1, self, 2, k={E})", "call_passing_self_in_arg": "print(register(self), {E})", "arg_of_call_in_call_passing_self": "register(self, len({E}))",
+    "tuple_with_self": "v = (self, {E})", "return_self_and": "return self, {E}", "boolop_with_self": "v = {E} or self", "ifexp_self_body": "v = self if {E} else None",
+    "compare_with_self": "v = self == {E}", "dict_self_key": "v = {self: {E}}",
     "global_then_use": "global G\n{I}G = {E}", "nonlocal_free": "w = [{E}][0]", "return_parenthesised": "return ({E})", "return_await_free": "return [{E}, 2][0]",
 }
+# positions in which the bare name `self` stands next to the mention (argument of the same call, element of the same display, operand of the same operator)
+BARE_SELF_POSITIONS = ("base_call_self_arg", "base_call_self_kwarg", "receiver_of_call_passing_self", "call_self_then_nested_arg", "call_arg_then_self", "selfcall_passing_self",
+                       "return_base_call_self", "call_self_keyword_only", "super_two_arg", "call_self_middle", "call_passing_self_in_arg", "arg_of_call_in_call_passing_self",
+                       "tuple_with_self", "return_self_and", "boolop_with_self", "ifexp_self_body", "compare_with_self", "dict_self_key")
+BARE_SELF_RE = re.compile(r"[(,=]\s*self\s*[,)]")
 ASYNC_ONLY = {"await", "async_for_iter", "async_with_item"}
 # positions whose mention is a TARGET (store / delete context): only an attribute can stand there, not a call
 TARGET_POSITIONS = tuple(k for k, v in POSITIONS.items() if "{A}" in v)
 # expression wrappers applied at random around a load-context mention (nesting of expression forms)
 WRAPS = ["self.sink({E})", "self.sink(k={E})", "len({E})", "({E}, 1)", "[{E}]", "{E}.real", "-{E}", "not {E}", "({E} + 1)", "self.items.get({E})", "(lambda: {E})()",
-         "({E} if v else 0)", "str({E}).strip()", "{1: {E}}", "v[{E}]", "f\"{{E}}\"", "self.sink(self.sink({E}))", "print(end={E})"]
+         "({E} if v else 0)", "str({E}).strip()", "{1: {E}}", "v[{E}]", "f\"{{E}}\"", "self.sink(self.sink({E}))", "print(end={E})",
+         # wrappers that hand the bare instance to the same call
+         "Base.wrap(self, {E})", "{E}.bind(self)", "self.sink(self, {E})", "register(self, key={E})"]
 
 
 def method_src(name, stmts, deco=None, is_async=False, first="self"):
@@ -83,7 +99,8 @@ def gen_class(rng, idx, positions=None):
             pos = rng.choice(positions or list(POSITIONS))
             if rng.random() < 0.3 and names:
                 callee = rng.choice(names + ["helper"])
-                expr, attr = "self.%s()" % callee, "self.%s" % rng.choice(attrs)
+                # the call through self may itself receive the bare instance, before or after other arguments
+                expr, attr = "self.%s(%s)" % (callee, rng.choice(["", "", "", "self", "self, v", "v, self"])), "self.%s" % rng.choice(attrs)
                 if pos in TARGET_POSITIONS:
                     expr = attr
             else:
@@ -210,9 +227,13 @@ def run(tier, seed, replay=None):
     srcs, tags = [], []
     # position matrix: one class per position × {attribute access, self call}; expected partition {m_use, m_set} | {m_other}
     for pos in POSITIONS:
-        for kind in ("attr", "call"):
-            expr = "self.target" if kind == "attr" else "self.m_set()"
-            if kind == "call" and pos in TARGET_POSITIONS:
+        # "call_self": the self-call that links the two methods hands the bare instance to the callee (`self.visit(self)`); run on the positions that are not
+        # registered as lost (those are attributed by the attr/call cells)
+        for kind in ("attr", "call", "call_self"):
+            expr = {"attr": "self.target", "call": "self.m_set()", "call_self": "self.m_set(self)"}[kind]
+            if kind != "attr" and pos in TARGET_POSITIONS:
+                continue
+            if kind == "call_self" and pos in lost_positions:
                 continue
             use = method_src("m_use", [(pos, expr, "self.target")], None, pos in ASYNC_ONLY)
             setter = method_src("m_set", [("assign_target", "self.target", "self.target")] if kind == "attr" else [("assign_value", "self.unrelated", "self.unrelated")])
@@ -290,7 +311,7 @@ def run(tier, seed, replay=None):
     if outs:
         for (si, ci, which, names), o in zip(where, outs):
             model[(si, ci, which)] = parse_model(o, names) if "|" in o else None
-    hist = {"classes": 0, "lcom_values": {}, "glue_mismatch_positions": {}, "matrix_cells": 0}
+    hist = {"classes": 0, "lcom_values": {}, "glue_mismatch_positions": {}, "matrix_cells": 0, "bare_self_cells": 0, "random_with_bare_self_sibling": 0}
     nontrivial, diffs = set(), 0
     for si, (g, ref, tag) in enumerate(zip(go, refs, tags)):
         if ref is None:
@@ -356,6 +377,10 @@ def run(tier, seed, replay=None):
                                   dict(info, signature=sig, lost=lost))
         if tag[0] == "matrix":
             hist["matrix_cells"] += 1
+            if tag[1] in BARE_SELF_POSITIONS or tag[2] == "call_self":
+                hist["bare_self_cells"] += 1
+        elif tag[0] == "random" and BARE_SELF_RE.search(srcs[si]):
+            hist["random_with_bare_self_sibling"] += 1
     # ---- several files through the real CLI: the value of a class is the value it has when its file is analysed alone -------------------------------
     import shutil
     import tempfile
@@ -394,9 +419,10 @@ def run(tier, seed, replay=None):
     res.coverage.update({
         "evaluations": hist["classes"],
         "distinct_nontrivial": len(nontrivial),
-        "rule": "position matrix: %d statement/expression positions × {attribute, self-call}; all 15 set partitions of 4 methods realised through attributes and through "
+        "rule": "position matrix: %d statement/expression positions (incl. %d where the bare instance is a sibling of the access: explicit base-class calls, "
+                "observer registration, displays) × {attribute, self-call, self-call passing the instance}; all 15 set partitions of 4 methods realised through attributes and through "
                 "calls; duplicate method names; random classes (0-6 methods, decorators incl. static/class/property, async, calls to missing methods); "
-                "non-trivial = class with LCOM4 > 1" % len(POSITIONS),
+                "non-trivial = class with LCOM4 > 1" % (len(POSITIONS), len(BARE_SELF_POSITIONS)),
         "exhaustive": True,
         "exhaustive_note": "the position matrix and the partitions of 4 methods are run completely on every run",
         "samples": [{"source": srcs[0], "reported": go[0].get("classes", [{}])[0].get("lcom4")}],
